@@ -4,7 +4,7 @@ SDK_TRUST = "Cosmos-SDK (bank, staking, store, baseapp) is modelled, not verifie
 
 PROPS = {
     "C04": dict(
-        lean_modules=["PalomaModel.Props.C04"],
+        lean_modules=["PalomaModel.Props.C04"], gen=["Consts.lean"],
         harness_test="TestC04",
         n_quick=3000, n_thorough=40000, thorough_seeds=8,
         # ops whose model output is exactly what the property demands
@@ -49,7 +49,7 @@ PROPS = {
         assumptions=["(sender, sequence) unique among pending transactions and priorities above MinInt64 (the property's own precondition `Admissible`)"],
     ),
     "C02": dict(
-        lean_modules=["PalomaModel.Props.C02"],
+        lean_modules=["PalomaModel.Props.C02"], gen=["Consts.lean"],
         harness_test="TestC02",
         n_quick=150, n_thorough=2000, thorough_seeds=8, timeout_quick=900,
         spec_ops=[],
